@@ -153,7 +153,11 @@ func isSendErrorCall(in ssa.Instruction) bool {
 		return false
 	}
 	cc := call.Common()
-	return cc.IsInvoke() && cc.Method.Name() == "SendError"
+	if cc.IsInvoke() {
+		return cc.Method.Name() == "SendError"
+	}
+	f := cc.StaticCallee()
+	return f != nil && f.Name() == "SendError" && f.Signature.Recv() != nil
 }
 
 func isSendReplyCall(in ssa.Instruction) bool {
@@ -162,7 +166,11 @@ func isSendReplyCall(in ssa.Instruction) bool {
 		return false
 	}
 	cc := call.Common()
-	return cc.IsInvoke() && cc.Method.Name() == "SendReply"
+	if cc.IsInvoke() {
+		return cc.Method.Name() == "SendReply"
+	}
+	f := cc.StaticCallee()
+	return f != nil && f.Name() == "SendReply" && f.Signature.Recv() != nil
 }
 
 // ruleStubDecodeErrors: in each stub method, every (value, err) produced
